@@ -95,32 +95,34 @@ func c22RoundRobin(r *vsched.Report) {
 				b.Set(nodes...)
 				b.next = start
 				var obs strings.Builder
-				crossed := c22Walk(e, input, b, nodes, 2*n+6, &obs)
+				c22Walk(e, input, b, nodes, 2*n+6, &obs)
+				calls := 2*n + 6
 				if shrink > 0 {
 					sub := nodes[:shrink]
 					b.Set(sub...)
 					obs.WriteString("|")
-					if c22Walk(e, input+" (after re-Set)", b, sub, 2*shrink+6, &obs) {
-						crossed = true
-					}
+					c22Walk(e, input+" (after re-Set)", b, sub, 2*shrink+6, &obs)
+					calls += 2*shrink + 6
 				}
-				// non-trivial: more than one node and the walk crosses the uint32 wrap of the counter
-				e.Case(input, obs.String(), 2*n+6, n > 1 && crossed)
+				// non-trivial (by input): more than one node and start + number of calls reaches 2^32,
+				// i.e. the prior-call count crosses the uint32 range during the walk
+				e.Case(input, obs.String(), calls, n > 1 && uint64(start)+uint64(calls) >= 1<<32)
 			}
 		}
 	}
 	e.Done()
 }
 
-// c22Walk performs calls Next() calls and applies the oracle; reports whether the counter wrapped.
-func c22Walk(e *vsched.Enum, input string, b *RoundRobin, nodes []*Node, calls int, obs *strings.Builder) (crossed bool) {
+// c22Walk performs `calls` Next() calls and applies the oracle to each.
+func c22Walk(e *vsched.Enum, input string, b *RoundRobin, nodes []*Node, calls int, obs *strings.Builder) {
 	prev := -1
+	wrapAt := -10
 	for i := 0; i < calls; i++ {
 		before := b.next
 		got, p := c22Next(b)
-		wrapStep := before == math.MaxUint32
+		wrapStep := before == math.MaxUint32 // this call takes an ever-increasing counter from 2^32-1 to 0
 		if wrapStep {
-			crossed = true
+			wrapAt = i
 		}
 		if p != nil {
 			msg := fmt.Sprint(p)
@@ -141,8 +143,8 @@ func c22Walk(e *vsched.Enum, input string, b *RoundRobin, nodes []*Node, calls i
 			continue
 		}
 		if prev >= 0 && idx != (prev+1)%len(nodes) {
-			if wrapStep {
-				e.Fail("rr-cyclic-order-breaks-at-counter-wrap", input, "%s: call %d returned node %d after node %d (of %d)", input, i+1, idx, prev, len(nodes))
+			if i-wrapAt <= 1 { // this call or the previous one took the counter across 2^32
+				e.Fail("rr-cyclic-order-breaks-at-counter-wrap", input, "%s: call %d (counter before=%d) returned node %d after node %d (of %d)", input, i+1, before, idx, prev, len(nodes))
 			} else {
 				e.Fail("rr-not-cyclic", input, "%s: call %d (counter before=%d) returned node %d after node %d (of %d)", input, i+1, before, idx, prev, len(nodes))
 			}
@@ -150,7 +152,6 @@ func c22Walk(e *vsched.Enum, input string, b *RoundRobin, nodes []*Node, calls i
 		prev = idx
 		fmt.Fprintf(obs, "%d,", idx)
 	}
-	return crossed
 }
 
 // c22RoundRobinFullWalk: thorough only — a fresh balancer is called 2^32+8 times (no state injection).
@@ -199,7 +200,7 @@ func c22RoundRobinFullWalk(r *vsched.Report) {
 				switch {
 				case idx < 0:
 					e.Fail("rr-returns-unconfigured-node", input, "%s: call %d", input, done)
-				case before == math.MaxUint32:
+				case before == math.MaxUint32 || before == 0:
 					e.Fail("rr-cyclic-order-breaks-at-counter-wrap", input, "%s: call %d returned node %d after node %d", input, done, idx, prev)
 				default:
 					e.Fail("rr-not-cyclic", input, "%s: call %d returned node %d after node %d", input, done, idx, prev)
